@@ -780,7 +780,7 @@ def oracle_retry(case, out):
 
 SUITES = [
     Suite("opp", gen_opp, run_opp, HDR_OPP, coq_opp, oracle_opp, shrink_opp, nontrivial_opp,
-          {"quick": 3000, "thorough": 120000}, describe=describe_opp, shard=250),
+          {"quick": 2000, "thorough": 120000}, describe=describe_opp, shard=200),
     Suite("reader", gen_reader, run_reader, HDR_READER, coq_reader, oracle_reader, shrink_reader, nontrivial_reader,
           {"quick": 1500, "thorough": 60000}, describe=describe_reader, shard=400),
     Suite("writer", gen_writer, run_writer, HDR_WRITER, coq_writer, oracle_writer, shrink_writer, nontrivial_writer,
